@@ -23,23 +23,26 @@ Implicit Types s : st W.
 (* a scheduler-internal move *)
 Definition sched s s' : Prop :=
   loci s' = loci s /\ world s' = world s /\ nextid s' = nextid s /\ incl (queue s') (queue s)
-  /\ out s' = out s /\ (wf s -> wf s').
+  /\ out s' = out s /\ (wf s -> wf s')
+  /\ (wf s -> forall x, In x (queue s) -> e_live x = true -> In x (queue s')).
 
 Lemma sched_refl s : sched s s.
-Proof. repeat split; try reflexivity; [apply incl_refl | apply H | apply H]. Qed.
+Proof.
+  split; [reflexivity|]. split; [reflexivity|]. split; [reflexivity|]. split; [apply incl_refl|]. split; [reflexivity|]. split; auto.
+Qed.
 
 Lemma sched_trans s1 s2 s3 : sched s1 s2 -> sched s2 s3 -> sched s1 s3.
 Proof.
-  intros (a1 & a2 & a3 & a4 & a5 & a6) (b1 & b2 & b3 & b4 & b5 & b6).
+  intros (a1 & a2 & a3 & a4 & a5 & a6 & a7) (b1 & b2 & b3 & b4 & b5 & b6 & b7).
   split; [congruence|]. split; [congruence|]. split; [congruence|]. split; [eapply incl_tran; eassumption|].
-  split; [congruence | auto].
+  split; [congruence|]. split; [auto|]. intros Hw x Hx Hl. apply b7; [apply a6, Hw | apply a7; assumption | exact Hl].
 Qed.
 
 Lemma sched_same s s' : loci s' = loci s -> world s' = world s -> nextid s' = nextid s -> queue s' = queue s ->
   out s' = out s -> sched s s'.
 Proof.
   intros H1 H2 H3 H4 H5. split; [exact H1|]. split; [exact H2|]. split; [exact H3|]. unfold wf. rewrite H3, H4, H5.
-  split; [apply incl_refl|]. split; [reflexivity | auto].
+  split; [apply incl_refl|]. split; [reflexivity|]. split; auto.
 Qed.
 
 Lemma sched_advance a b c s : sched s (advance a b c s).
@@ -51,8 +54,9 @@ Proof. apply sched_same; reflexivity. Qed.
 Lemma sched_discard s : sched s (discard s).
 Proof.
   unfold discard. split; [reflexivity|]. split; [reflexivity|]. split; [reflexivity|]. cbn [queue set_queue].
-  split; [apply discard_dead_incl|]. split; [reflexivity|]. unfold wf. cbn [queue nextid set_queue]. intros [H1 H2].
-  split; [apply discard_dead_NoDup, H1|]. rewrite Forall_forall in *. intros x Hx. apply H2. eapply discard_dead_incl. exact Hx.
+  split; [apply discard_dead_incl|]. split; [reflexivity|]. unfold wf. cbn [queue nextid set_queue]. split; intros [H1 H2].
+  - split; [apply discard_dead_NoDup, H1|]. rewrite Forall_forall in *. intros x Hx. apply H2. eapply discard_dead_incl. exact Hx.
+  - intros x Hx Hl. apply discard_dead_keeps_live; assumption.
 Qed.
 
 (* the state an event function entered by call c on s leaves behind (tap included) *)
@@ -98,6 +102,23 @@ Proof.
     + destruct (IH sc Hin) as [A [cs1 [cs2 [E S]]]]. split; [exact A|].
       exists cs1, (cs2 ++ [(s, c)]). split; [rewrite E, <- app_assoc; reflexivity | exact S].
     + split; [exact Hok|]. exists cs, []. split; [reflexivity | exact H].
+Qed.
+
+Lemma snoc_cases {A} (l : list A) : l = [] \/ exists l' z, l = l' ++ [z].
+Proof. destruct l as [|x l]; [left; reflexivity|]. right. destruct (exists_last (l := x :: l)) as [l' [z E]]; [discriminate|]. eauto. Qed.
+
+(* a run cut at one of its calls *)
+Lemma Steps_split s0 cs s : Steps s0 cs s -> forall cs1 sc cs2, cs = cs1 ++ sc :: cs2 ->
+  Steps s0 cs1 (fst sc) /\ call_ok (snd sc) (fst sc) /\ Steps (after (snd sc) (fst sc)) cs2 s.
+Proof.
+  intros H. induction H as [|cs s s' H IH Hsc|cs s c H IH Hok]; intros cs1 sc cs2 E.
+  - destruct cs1; discriminate.
+  - destruct (IH cs1 sc cs2 E) as (A & B & C). split; [exact A|]. split; [exact B|]. eapply st_sched; eassumption.
+  - destruct (snoc_cases cs2) as [->|[cs2' [z ->]]].
+    + apply app_inj_tail in E. destruct E as [<- <-]. cbn [fst snd]. split; [exact H|]. split; [exact Hok | apply st_refl].
+    + replace (cs1 ++ sc :: cs2' ++ [z]) with ((cs1 ++ sc :: cs2') ++ [z]) in E by (rewrite <- app_assoc; reflexivity).
+      apply app_inj_tail in E. destruct E as [E <-]. destruct (IH cs1 sc cs2' E) as (A & B & C).
+      split; [exact A|]. split; [exact B|]. apply st_call; assumption.
 Qed.
 
 Lemma Steps_app_sched s0 cs s s' : Steps s0 cs s -> sched s s' -> Steps s0 cs s'.
